@@ -385,6 +385,9 @@ def run(ctx) -> int:
         progs.append({"id": f"genc/{ctx.seed}/{i}", "src": s, "group": "const"})
     for i, s in enumerate(gen_progs.gen_many(ctx.seed + 2, n_expr, consts=False, nested=True, exprs=True)):
         progs.append({"id": f"gene/{ctx.seed}/{i}", "src": s, "group": "expr"})
+    n_cexpr = 150 if quick else 1500
+    for i, s in enumerate(gen_progs.gen_many(ctx.seed + 3, n_cexpr, consts=True, nested=True, exprs=True)):
+        progs.append({"id": f"gence/{ctx.seed}/{i}", "src": s, "group": "const-expr"})
     by_id = {p["id"]: p for p in progs}
 
     recs = run_impl(ctx, [{"id": p["id"], "src": p["src"]} for p in progs])
@@ -537,6 +540,6 @@ def run(ctx) -> int:
         phase_seconds=T, bridge_tie=bridge,
         construct_histogram={"over": f"{len(gen_sources)} generated programs (corpus excluded)", "constructs": hist,
                              "below_5_percent": below},
-        cases={"expr": n_expr, "plain": n_plain, "const": n_const, "corpus": len([p for p in progs if p["group"] == "corpus"])},
+        cases={"const_expr": n_cexpr, "expr": n_expr, "plain": n_plain, "const": n_const, "corpus": len([p for p in progs if p["group"] == "corpus"])},
     )
     return ctx.finish(LEVEL, cov, info.get("axioms", []))
